@@ -197,12 +197,15 @@ def main():
     sopht_modules()
     q = chk.quick
     t2 = [(dict(kind="ns2d", shape=(10, 11), forcing=True, free_stream=True, width=0), 4), (dict(kind="passive", shape=(8, 9), field_type="scalar"), 3)]
-    t3 = [(dict(kind="ns3d", shape=(8, 9, 10), forcing=True, free_stream=True, filter=("multiplicative", 1), solver="fast_diagonalisation", width=0), 4),
+    t3 = [(dict(kind="ns3d", shape=(9, 10, 11), forcing=True, free_stream=True, filter=("multiplicative", 1), solver="fast_diagonalisation", width=0), 4),
           (dict(kind="passive", shape=(8, 9, 10), field_type="scalar"), 3)]
     if not q:
-        t2.append((dict(kind="ns2d", shape=(12, 13), forcing=True, free_stream=False, width=2), 6))
+        t2.append((dict(kind="ns2d", shape=(13, 14), forcing=True, free_stream=False, width=2), 6))
         t3.append((dict(kind="ns3d", shape=(12, 11, 13), forcing=False, free_stream=True, filter=("convolution", 2), solver="greens_function_convolution", width=1), 5))
         t3.append((dict(kind="passive", shape=(8, 9, 10), field_type="vector"), 3))
+    # the other filter type (kwargs-only option of the 3-D simulator) under a cyclic permutation
+    conv = dict(kind="ns3d", shape=(9, 10, 11), forcing=False, free_stream=False, filter=("convolution", 1), solver="fast_diagonalisation", width=0)
+    chk.add(transport_part, cfg=conv, g=[[1, 2, 0], []], margin=4)
     for cfg, m in t2:
         for g in group(2, q):
             chk.add(transport_part, cfg=cfg, g=[list(g[0]), list(g[1])], margin=m)
@@ -219,7 +222,7 @@ def main():
         for g in group(3, q):
             chk.add(velocity_part, cfg=cfg, g=[list(g[0]), list(g[1])])
     chk.bounds = ["group elements: " + ("transposition + one mirror (2D), one cyclic + one odd permutation + one mirror (3D)" if q else "transposition, both mirrors, transposition.mirror (2D); all 5 non-trivial permutations, 3 mirrors, one composite (3D)"),
-                  "transport part: non-cubic grids (10,11)/(8,9) and (8,9,10) with compactly supported vorticity/forcing (margin = reach of the step), arbitrary velocity, ENO ties excluded, Poisson stage cut out",
+                  "transport part: non-cubic grids (10,11)/(8,9), (9,10,11) (Navier-Stokes) and (8,9,10) (passive) with compactly supported vorticity/forcing (margin = reach of the step), arbitrary velocity, ENO ties excluded, Poisson stage cut out",
                   "velocity part: (4,5) / (3,4,5) fast-diag / (2,3,4) Green's function; vorticity arbitrary in [-1,1]; tolerance 1e-11 (stream function), 1e-9 (velocity)"]
     chk.outside = ["the composition of the two parts on one grid with the exact FFT (cost); larger grids", "ENO ties (excluded by the statement)", "rounding"]
     chk.assumptions = ["same spacing dx on both grids (x_range rescaled by the new x size)", "each simulator uses its own floating-point tables (hence tolerances in the velocity part)"]
